@@ -284,11 +284,20 @@ func (w *world) closeAsync() []*closeRec {
 		cs = append(cs, c)
 	}
 	w.mu.Unlock()
-	for _, c := range cs {
+	for i, c := range cs {
 		c := c
+		// the later calls start a few scheduling steps after the first, so that they
+		// meet a broadcaster that is already marked closed but still has forwarders
+		yield := 0
+		if i > 0 {
+			yield = int(c.call+int64(w.idx)) % 6
+		}
 		go func() {
 			var left []string
 			if !w.guard("Close", func() {
+				for k := 0; k < yield; k++ {
+					runtime.Gosched()
+				}
 				w.b.Close()
 				for _, g := range mon.BlockedIn("events/broadcaster.(*Broadcaster") {
 					kf := g.KitFrame()
@@ -1096,6 +1105,23 @@ func finish(w *world, how string) {
 		return
 	}
 	if !w.closeCalled() {
+		if w.idx%2 == 0 {
+			// a crowd of prompt subscribers: their forwarders all leave at once when the
+			// broadcaster closes and queue up on its lock, which is when an overlapping
+			// Close call that does not wait would return too early
+			g := w.newGroup(8, "prompt")
+			for _, s := range g.subs {
+				w.startReader(s)
+			}
+			w.step("subscribe 8 more prompt subscribers (one call)")
+			go w.subscribeGroup(g)
+			q = w.quiesce()
+			if d, shape := w.stuck(q); d != "" {
+				w.wedge(how+"+subscribe", d, shape)
+				return
+			}
+			rec.Count("close.with_crowd_of_forwarders", 1)
+		}
 		w.step("close")
 		w.closeAsync()
 		q = w.quiesce()
@@ -1562,11 +1588,7 @@ func lockstep(w *world, rng *mon.RNG) {
 func TestCheck(t *testing.T) {
 	rec = mon.Open("C11")
 	defer rec.Close()
-	// every mon.Quiesce snapshot allocates a 1 MB dump buffer; with the default
-	// GC pacing on a tiny live heap that is one collection per snapshot
-	debug.SetGCPercent(-1)
-	debug.SetMemoryLimit(128 << 20)
-	rec.Note("rule", "a case is one history against the real Broadcaster[int] inside a synctest bubble, recorded at the client boundary with one atomic logical clock and unique values (g<goroutine>-<id>). (race) 1-4 broadcasting goroutines (plus optionally one started later), 1-5 subscribers that are prompt / slow (read only when handed tokens, in small batches) / stalled (no tokens, >11 values outstanding, i.e. past the 10-slot buffer + the forwarder's hand) / leaving (cancel themselves after k receives, are cancelled by a racing goroutine, or are cancelled while a Broadcast is blocked), some subscribing late or two channels per Subscribe call, Close at the end / while a Broadcast is blocked / racing / in the middle of the resolution, seeded runtime.Gosched perturbation; the harness ends every stall by tokens or cancel, then demands progress (all Broadcast/Subscribe/Close calls returned, nobody on the mutex, by mon.Quiesce) and judges exactly-once, at-most-once, known values, acyclic precedence graph, nothing from a Broadcast called after Close returned. (lockstep) one operation at a time with a quiescence barrier in between, compared step by step with an exact reference (11 outstanding do not block, the 12th does; what is parked behind a blocked Broadcast runs after it), and judged by the same statement-level oracle at every step. Non-trivial = at least one value was delivered; distinct = distinct plan / step list.")
+	rec.Note("rule", "a case is one history against the real Broadcaster[int] inside a synctest bubble, recorded at the client boundary with one atomic logical clock and unique values (g<goroutine>-<id>). (race) 1-4 broadcasting goroutines (plus optionally one started later), 1-5 subscribers that are prompt / slow (read only when handed tokens, in small batches) / stalled (no tokens, >11 values outstanding, i.e. past the 10-slot buffer + the forwarder's hand) / leaving (cancel themselves after k receives, are cancelled by a racing goroutine, or are cancelled while a Broadcast is blocked), some subscribing late or two channels per Subscribe call, Close at the end / while a Broadcast is blocked / racing / in the middle of the resolution, seeded runtime.Gosched perturbation; the harness ends every stall by tokens or cancel, then demands progress (all Broadcast/Subscribe/Close calls returned, nobody on the mutex, by mon.Quiesce) and judges exactly-once, at-most-once, known values, acyclic precedence graph, nothing from a Broadcast called after Close returned (= the earliest return of any Close call). Wherever the workload closes the broadcaster it issues 2 overlapping Close calls from two goroutines, and each call is judged at its own return: a forwarder goroutine still parked inside the broadcaster (mon.BlockedIn) at that moment refutes \"Close waits for its forwarders\". (lockstep) one operation at a time with a quiescence barrier in between, compared step by step with an exact reference (11 outstanding do not block, the 12th does; what is parked behind a blocked Broadcast runs after it), and judged by the same statement-level oracle at every step. Non-trivial = at least one value was delivered; distinct = distinct plan / step list.")
 	rec.Note("require", []string{
 		"judged", "deliveries", "close.overlapping_calls_checked", "exactly_once_pairs_demanded", "post_close_checked",
 		"hist.broadcast_blocked_on_stalled_reader", "hist.goroutine_parked_on_mutex",
